@@ -10,6 +10,7 @@
 import Sky.Prim.DrvLib
 import Sky.C27.Model
 import Sky.Gen.Routes
+import Sky.Hash.Hmac
 namespace Sky.C27.Drv
 open Sky Sky.Drv Sky.C27 Sky.Gen.Routes
 
@@ -97,7 +98,8 @@ def parseHdrURL (v : String) : HdrURL :=
 def tok? : String → Option Tok
   | "none" | "garbage" | "three" => some ⟨false, false, false, false, false, false⟩
   | "badb64" => some ⟨true, false, false, false, false, false⟩
-  | "forged" | "tampered" => some ⟨true, true, false, true, true, false⟩
+  | "forged" | "tampered" | "splice" | "splicelive" | "swapsig" | "truncsig" | "extsig" | "emptysig" | "sigpayload"
+  | "sigprefix" => some ⟨true, true, false, true, true, false⟩
   | "expired" => some ⟨true, true, true, true, false, true⟩
   | "olderexpired" => some ⟨true, true, true, true, false, false⟩
   | "valid" => some ⟨true, true, true, true, true, true⟩
@@ -170,6 +172,28 @@ def answer (op : String) : Option (Outcome × Outcome × Outcome) := do
   let code := Sky.C27.decide verifyCode cfg r req
   pure (spec, model, code)
 
+/-- `token k=…` lines: the harness reports the node's key, the payload and signature bytes of a token and
+what the real `verifyCSRFToken` said; the expected verdict is recomputed here from the specification
+`rawVerify` with the executable HMAC-SHA256 of Sky.Hash. -/
+def tokenStep (impl : String) : String × Verdict :=
+  let toks := impl.splitOn " "
+  match (do
+    let key ← hex? (← kv toks "key")
+    let payload ← hex? (← kv toks "payload")
+    let sigS ← kv toks "sig"
+    let sig ← hex? sigS
+    let exp ← kv toks "exp"
+    let got ← kv toks "verdict"
+    let want := match rawVerify Sky.Hash.hmacSha256 key (exp == "1") ⟨payload, sig⟩ with
+      | none => "ok"
+      | some w => w.detail
+    pure (toks, want, got)) with
+  | none => ("bad-token-line", .unknown)
+  | some (toks, want, got) =>
+    let model := " ".intercalate ((toks.filter fun t => !t.startsWith "verdict=") ++ ["verdict=" ++ want])
+    -- the property is violated when the real code ACCEPTS a token the specification refuses
+    (model, if got == "ok" && want != "ok" then .fail else .hold)
+
 /-- Expected answer and verdict.
 * the expected answer is the SPECIFICATION's (documented token rule); it is only reported as such if
   the regenerated chain model agrees with it.
@@ -179,6 +203,7 @@ def answer (op : String) : Option (Outcome × Outcome × Outcome) := do
   LATER check anyway (impl = coded rule ≠ reach), the line is accepted: the request did not reach the
   handler; the finding itself is exhibited by the lines where it does (verdict `fail`). -/
 def step (op impl : String) : String × Verdict :=
+  if op.startsWith "token " then tokenStep impl else
   match answer op with
   | none => ("bad-op", .unknown)
   | some (spec, model, code) =>
